@@ -12,6 +12,9 @@ CHECKS = {
  'C12': dict(level='model_checking', engine='seqmc', technique='exhaustive enumeration of histories with clean at every position, executed on the implementation and compared with the reference model',
    text='clean is executed after commits, after rolled-back builds, after every external mutation and after a previous clean, for every program/tree/mutation of the bounded space; the tree after clean must equal the reference model (outputs, cache file and emptied created directories gone, nothing else touched), a second clean must change nothing, and the next build must behave as a first build (value, tree and invocation log equal the from-scratch model).',
    note='Same trusted base as C01.', design='4/C12'),
+ 'C03': dict(level='model_checking', engine='seqmc', technique='exhaustive enumeration of histories with foreign files planted at every path role; model-free before/after monitor on every API call of the implementation',
+   text='Around every build (committed or rolled back) and clean of every history in the bounded space, every regular file outside the managed set (cache file, paths passed to build_file in this call, recorded previous outputs) must keep inode, bytes and mtime, every directory that disappears must have been created by a build and have held nothing foreign, and after a rolled-back build every file that existed before must be back. Foreign files are planted inside every existing directory, at every output position and as file<->directory replacements; programs that nest an output below another output are included.',
+   note='The monitor uses no model; the managed set of previous outputs comes from the reference model record, which is validated by tree equality on every committed build.', design='4/C03'),
 }
 NOT_YET = {}
 props = [json.loads(l)['id'] for l in open(V + '/properties.jsonl')]
